@@ -35,6 +35,10 @@ def run(ctx, rep):
         check_rec_vm(crate, rep, cfg, "R-REC.vm")
         check_rec_value(crate, rep, cfg)
         check_ref(crate, rep, cfg)
+        check_span(crate, rep, cfg)
+        check_utf8(crate, rep, cfg)
+        check_pair(crate, rep, cfg)
+        check_iter_dom(crate, rep, cfg)
         import rpanic
         rpanic.check(crate, rep, "R-PANIC.render", ("vm/interpreter.rs", "vm/state.rs", "vm/for_loop.rs", "vm/stack.rs", "value/mod.rs", "value/number.rs", "value/key.rs"), cfg, 40)
 
@@ -434,3 +438,219 @@ def resolve_upvars(crate, body, leaves, transparent):
                     continue
         out.add(l)
     return out
+
+
+# ----------------------------------------------------------------------------------------------------------------
+# C07.SPAN / C07.UTF8 / C07.PAIR / C07.ITER
+
+PUSHING = {"LoadConst", "LoadName", "LoadAttr", "LoadAttrOpt", "BinarySubscript", "BinarySubscriptOpt", "Slice", "SliceOpt", "BuildMap", "BuildList",
+           "BuildMapWithSpreads", "BuildListWithSpreads", "CallFunction", "RenderInlineComponent", "RenderBodyComponent", "ApplyFilter", "RunTest",
+           "EndCapture", "StoreDidNotIterate", "Mul", "Div", "FloorDiv", "Mod", "Plus", "Minus", "Power", "LessThan", "GreaterThan", "LessThanOrEqual",
+           "GreaterThanOrEqual", "Equal", "NotEqual", "StrConcat", "In", "Not", "Negative"}
+SPANLESS = {  # (function, variant, span kind) -> (count, reason)
+    ("compile_expr", "LoadConst", "None"): (3, "slice defaults none/none/1: the Slice arm tests is_none() first and 1 is an integer, so their span is never read"),
+    ("compile_kwargs", "BuildMap", "None"): (1, "kwargs map: every consumer (CallFunction, ApplyFilter, RunTest) pops it with `_` for the span"),
+    ("compile_map_entries", "BuildMap", "param"): (1, "span passed by the caller: Some for map literals; None only for component kwargs, popped with `_`"),
+    ("compile_map_entries", "BuildMapWithSpreads", "param"): (1, "same as BuildMap"),
+    ("compile_node", "EndCapture", "call"): (1, "set block: span of the first filter if any; without filters the value is consumed by Set, which reads no span"),
+    ("compile_node", "StoreDidNotIterate", "None"): (1, "consumed by PopJumpIfFalse, which reads no span"),
+}
+
+
+def check_span(crate, rep, cfg):
+    from collections import Counter
+    seen = Counter()
+    first = {}
+    n = 0
+    for b in crate.in_files("parsing/compiler.rs"):
+        if b.kind == "const":
+            continue
+        tr = Tracer(b)
+        fn = crate.root_of(b).path.rsplit("::", 1)[-1]
+        for bb, t in find_calls(b, ["parsing::instructions::Chunk::add"]):
+            vs = {l.detail[2] for l in tr.operand(t["args"][1]) if l.kind == "agg"}
+            if not vs:
+                rep.bad("C07.SPAN", "C07.SPAN:%s:unknown-instruction" % fn, b.where(bb), "emission whose instruction is not a direct construction")
+                continue
+            kinds = set()
+            for l in tr.operand(t["args"][2]):
+                if l.kind == "agg" and l.detail[1] == "std::option::Option":
+                    kinds.add(l.detail[2])
+                else:
+                    kinds.add(l.kind)
+            kind = "/".join(sorted(kinds))
+            for v in vs & PUSHING:
+                n += 1
+                if kind == "Some":
+                    rep.ok("C07.SPAN", "C07.SPAN:%s:%s:some#%d" % (fn, v, seen[(fn, v, "Some")]), b.where(bb), "value-pushing instruction %s is emitted with Some(span)" % v)
+                    seen[(fn, v, "Some")] += 1
+                else:
+                    seen[(fn, v, kind)] += 1
+                    first.setdefault((fn, v, kind), b.where(bb))
+    for (fn, v, kind), c in sorted(seen.items()):
+        if kind == "Some":
+            continue
+        row = SPANLESS.get((fn, v, kind))
+        key = "C07.SPAN:%s:%s:%s" % (fn, v, kind)
+        if row and c <= row[0]:
+            rep.ok("C07.SPAN", key, first[(fn, v, kind)], "spanless emission of %s reviewed (%dx): %s" % (v, c, row[1]))
+        else:
+            rep.bad("C07.SPAN", key, first[(fn, v, kind)], "value-pushing instruction %s emitted without a span (%dx, reviewed %s): an error on that value hits "
+                    "`expect('to have a span for error')` at render time" % (v, c, row[0] if row else 0))
+    rep.floor("C07.SPAN", "emissions of value-pushing instructions [%s]" % cfg, n, 35)
+    # compile_map_entries callers: None only next to a component emission
+    ce = crate.one("parsing::compiler::Compiler::compile_expr")
+    tr = Tracer(ce)
+    for k, (bb, t) in enumerate(find_calls(ce, ["parsing::compiler::Compiler::compile_map_entries"])):
+        kinds = {l.detail[2] for l in tr.operand(t["args"][2]) if l.kind == "agg"}
+        if kinds == {"None"}:
+            region = ce.reach_from(bb)
+            ok = any(s["rv"]["variant"] in ("RenderInlineComponent", "RenderBodyComponent") for b2, i2, s in find_aggs(ce, "parsing::instructions::Instruction", blocks=sorted(ce.dominated_by(bb))))
+            rep.add("C07.SPAN", "C07.SPAN:compile_expr:compile_map_entries-None#%d" % k, ok, ce.where(bb), "compile_map_entries is called without a span only for component kwargs" + ("" if ok else " — VIOLATED"))
+
+
+UTF8_WRITERS = ["value::Value::format", "value::format_map", "value::key::Key::<'a>::format", "utils::escape_html"]
+
+
+def check_utf8(crate, rep, cfg):
+    n = 0
+    for path in UTF8_WRITERS:
+        b = crate.one(path)
+        rep.analysed(b)
+        tr = Tracer(b, transparent=set(TRANSPARENT_CALLS) | {"std::string::String::from_utf8_lossy", "std::borrow::Cow::<'_, B>::as_ref", "itoa::Buffer::format"})
+        k = 0
+        for bb, t in find_calls(b, ["std::io::Write::write_all"]):
+            n += 1
+            leaves = tr.operand(t["args"][1])
+            ok = bool(leaves)
+            for l in leaves:
+                if l.kind == "const":
+                    continue
+                if any("as_bytes" in p for p in l.projs):
+                    continue        # bytes of a &str / String / lossy-converted Cow<str>
+                if leaf_call_is(l, "itoa::Buffer::format", "itoa::Buffer::new"):
+                    continue
+                if path.endswith("escape_html") and l.kind == "agg" and l.detail[0] == "array":
+                    continue        # the input's own byte, in order (non-special bytes are copied through one at a time)
+                ok = False
+            key = "C07.UTF8:%s:write_all#%d" % (path, k)
+            k += 1
+            (rep.ok if ok else rep.bad)("C07.UTF8", key, b.where(bb), "bytes written come from a constant, str::as_bytes (incl. from_utf8_lossy) or number digits — valid UTF-8"
+                                        + ("" if ok else " — VIOLATED: origin %s; the VM reads this buffer with from_utf8_unchecked" % sorted(leaf_str(l) for l in leaves)[:2]))
+    rep.floor("C07.UTF8", "write_all sites of the formatting functions [%s]" % cfg, n, 12)
+    # SmartString::Small.data writers: only SmartString::new (copy_from_slice of a &str) and mark_safe (moves it)
+    for b in crate.bodies.values():
+        for bb, idx, s in find_aggs(b, "value::SmartString", "Small"):
+            ok = b.path in ("value::SmartString::new", "value::SmartString::mark_safe") or rrec.derive_generated(crate, b.path)
+            rep.add("C07.UTF8", "C07.UTF8:SmartString::Small:%s" % b.path, ok, b.where(bb, idx), "inline string bytes are only built by SmartString::new (copied from a &str) / moved by mark_safe"
+                    + ("" if ok else " — VIOLATED: as_str() reads them with from_utf8_unchecked"))
+    # filters::escape's buffer: only escape_html writes it
+    fe = crate.one("filters::escape")
+    tr = Tracer(fe)
+    for bb, t in fe.calls():
+        if callee_def(t).endswith("from_utf8_unchecked"):
+            leaves = tr.operand(t["args"][0])
+            ok = bool(leaves) and all(leaf_call_is(l, "std::vec::Vec::<T>::with_capacity", "std::vec::Vec::<T>::new") for l in leaves)
+            writers = [callee_def(t2) for b2, t2 in fe.calls() if any(a["k"] in ("copy", "move") and "Vec<u8>" in fe.local_ty(a["pl"]["l"]) for a in t2["args"])
+                       and not callee_def(t2).endswith("from_utf8_unchecked")]
+            ok = ok and all(w.endswith("escape_html") or w.endswith("::unwrap") or "Deref" in w or w.endswith("with_capacity") for w in writers)
+            rep.add("C07.UTF8", "C07.UTF8:filters::escape:buffer", ok, fe.where(bb), "the buffer turned into a String unchecked is a fresh Vec written only by escape_html" + ("" if ok else " — VIOLATED: %s" % writers))
+
+
+def check_pair(crate, rep, cfg):
+    # compiler: Capture/EndCapture and StartIterate*/PopLoop emitted in pairs on every path
+    pairs = (("Capture", ("EndCapture",), 3), ("StartIterate", ("PopLoop",), 1), ("StartIterateComprehension", ("PopLoop",), 1))
+    for b in [x for x in crate.in_files("parsing/compiler.rs") if x.kind != "const"]:
+        fn = crate.root_of(b).path.rsplit("::", 1)[-1]
+        for opener, closers, _ in pairs:
+            opens = [bb for bb, idx, s in find_aggs(b, "parsing::instructions::Instruction", opener)]
+            close_blocks = {bb for c in closers for bb, idx, s in find_aggs(b, "parsing::instructions::Instruction", c)}
+            for k, ob in enumerate(opens):
+                reach = b.reach_from(ob, removed_blocks=frozenset(close_blocks - {ob}))
+                leaks = [x for x in reach if b.term(x)["k"] == "return"]
+                key = "C07.PAIR:%s:%s#%d" % (fn, opener, k)
+                (rep.ok if not leaks else rep.bad)("C07.PAIR", key, b.where(ob), "every path from the emission of %s to return emits %s (the VM's capture/loop stack is popped "
+                                                   "again)" % (opener, "/".join(closers)) + ("" if not leaks else " — VIOLATED"))
+    n_open = sum(len(list(find_aggs(b, "parsing::instructions::Instruction", "Capture"))) for b in crate.in_files("parsing/compiler.rs") if b.kind != "const")
+    rep.floor("C07.PAIR", "Capture emissions [%s]" % cfg, n_open, 3)
+    # parser: Break/Continue only inside a loop and not across a capture; Block only where blocks are allowed
+    pt = crate.one("parsing::parser::Parser::<'a>::parse_tag")
+    ef = EdgeFacts(pt, crate)
+    in_loop = set(pt.locals_named("in_loop"))
+    for v in ("Break", "Continue"):
+        sites = list(find_aggs(pt, "parsing::ast::Node", v))
+        ok = bool(sites)
+        for bb, idx, s in sites:
+            dom = False
+            for sb in sorted(pt.reachable):
+                t = pt.term(sb)
+                if t["k"] == "switch" and t["op"]["k"] in ("copy", "move") and not t["op"]["pl"]["p"] and pt.dominates(sb, bb) and sb != bb:
+                    srcs = {t["op"]["pl"]["l"]}
+                    for (b2, i2, dp, rv) in pt.defs.get(t["op"]["pl"]["l"], []):
+                        if rv["k"] == "un" and rv["op"] == "Not" and rv["a"]["k"] in ("copy", "move"):
+                            x = rv["a"]["pl"]["l"]
+                            for (b3, i3, dp3, rv3) in pt.defs.get(x, []):
+                                if rv3["k"] == "use" and rv3["op"]["k"] in ("copy", "move") and rv3["op"]["pl"]["l"] in in_loop:
+                                    # `if !in_loop { return Err }`: the construction is on the false edge
+                                    for vv, tgt in t["targets"]:
+                                        if vv == "0" and pt.dominates(tgt, bb):
+                                            dom = True
+                        if rv["k"] == "use" and rv["op"]["k"] in ("copy", "move") and rv["op"]["pl"]["l"] in in_loop:
+                            if pt.dominates(t["otherwise"], bb):
+                                dom = True
+            ok = ok and dom
+        rep.add("C07.PAIR", "C07.PAIR:parser:%s-in-loop" % v, ok, pt.where(sites[0][0]) if sites else pt.where(0), "Node::%s is only built on the `in_loop` edge of the body-context "
+                "scan (so the compiler's get_current_loop().unwrap() and the jump stay inside a loop)" % v + ("" if ok else " — VIOLATED"))
+    # the scan refuses a Capture context met before the loop
+    capt = 0
+    for bb, idx, s in pt.stmts():
+        for op in iter_operands(s):
+            if op["k"] == "const" and "parsing::parser::BodyContext::Capture" in (op.get("pagg") or []):
+                capt += 1
+    rep.add("C07.PAIR", "C07.PAIR:parser:capture-blocks-break", capt >= 1, pt.where(0), "the break/continue scan compares each enclosing context with BodyContext::Capture and errors "
+            "(a jump may not cross an EndCapture)" + ("" if capt >= 1 else " — VIOLATED"))
+    sites = list(find_aggs(pt, "parsing::ast::Node", "Block"))
+    ok = bool(sites)
+    for bb, idx, s in sites:
+        dom = False
+        for sb in sorted(pt.reachable):
+            if pt.term(sb)["k"] != "switch" or not pt.dominates(sb, bb):
+                continue
+            for tgt, fl in ef.facts_for_switch(sb).items():
+                for f in fl:
+                    if f[0] == "call" and f[1].endswith("::any") and f[3] is False and pt.dominates(tgt, bb) and tgt != sb:
+                        dom = True
+        ok = ok and dom
+    rep.add("C07.PAIR", "C07.PAIR:parser:block-context", ok, pt.where(sites[0][0]) if sites else pt.where(0), "Node::Block is only built on the false edge of "
+            "`body_contexts.iter().any(|b| !b.can_contain_blocks())` (never inside a loop)" + ("" if ok else " — VIOLATED"))
+    # VM: blocks pushed in RenderBlock are popped before the `?` on the nested result
+    vm = crate.one("vm::interpreter::VirtualMachine::<'tera>::interpret")
+    tr = Tracer(vm)
+    pushes = [bb for bb, t in find_calls(vm, ["std::vec::Vec::<T, A>::push"]) if rrec.field_of_arg(tr, t["args"][0]) == ".blocks"]
+    pops = {bb for bb, t in find_calls(vm, ["std::vec::Vec::<T, A>::pop"]) if rrec.field_of_arg(tr, t["args"][0]) == ".blocks"}
+    heads = {bb for bb, t in find_calls(vm, ["parsing::instructions::Chunk::get"])}
+    ok = bool(pushes) and bool(pops)
+    for pb in pushes:
+        reach = vm.reach_from(pb, removed_blocks=frozenset(pops))
+        if (reach & heads) or any(vm.term(x)["k"] == "return" for x in reach):
+            ok = False
+    rep.add("C07.PAIR", "C07.PAIR:vm:blocks-push-pop", ok, vm.where(pushes[0]) if pushes else vm.where(0), "after state.blocks.push in RenderBlock neither the next instruction nor a "
+            "return (including the `?` on the nested result) is reached without state.blocks.pop()" + ("" if ok else " — VIOLATED"))
+
+
+def check_iter_dom(crate, rep, cfg):
+    vm = crate.one("vm::interpreter::VirtualMachine::<'tera>::interpret")
+    ef = EdgeFacts(vm, crate)
+    sites = [bb for bb, t in vm.calls() if callee_def(t).endswith("ForLoop::new") or callee_def(t).endswith("ForLoop::new_comprehension")]
+    rep.floor("C07.ITER", "ForLoop::new call sites in the VM [%s]" % cfg, len(sites), 2)
+    for k, cb in enumerate(sites):
+        dom = False
+        for sb in sorted(vm.reachable):
+            if vm.term(sb)["k"] != "switch" or not vm.dominates(sb, cb):
+                continue
+            for tgt, fl in ef.facts_for_switch(sb).items():
+                for f in fl:
+                    if f[0] == "call" and f[1].endswith("can_be_iterated_on") and f[3] is True and vm.dominates(tgt, cb) and tgt != sb:
+                        dom = True
+        rep.add("C07.ITER", "C07.ITER:vm:ForLoop::new#%d" % k, dom, vm.where(cb), "ForLoop::new is dominated by the true edge of can_be_iterated_on() (its expect cannot fire; "
+                "kind tables agree — C17.ITERABLE)" + ("" if dom else " — VIOLATED"))
